@@ -1063,7 +1063,27 @@ func (g *egen) concStmt() *RS {
 		g.noteN++
 		pool = append(pool, &RS{Op: "call", E: &RE{Op: "call", Kind: "three", Sym: "S.Sub.Mark", Args: []*RE{lit("int64", strconv.Itoa(g.noteN))}}})
 	}
-	if r.chance(1, 6) || (g.illP > 50 && r.chance(1, 2)) {
+	if r.chance(1, 8) || (g.illP > 50 && r.chance(1, 3)) {
+		// a call whose argument faults by itself (an element access reflect refuses): the child's own
+		// goroutine must contain it
+		bad := []*RE{
+			{Op: "idx", Sym: "AP", Key: &RKey{"int", "9"}},
+			{Op: "idx", Sym: "A", Key: &RKey{"str", "x"}},
+			{Op: "idx", Sym: "NOPE", Key: &RKey{"int", "1"}},
+			{Op: "idx", Sym: "v_int", Key: &RKey{"int", "0"}},
+			{Op: "idx", Sym: "M", Key: &RKey{"var", "nokey"}},
+		}[r.intn(5)]
+		g.noteN++
+		switch r.intn(3) {
+		case 0:
+			pool = append(pool, &RS{Op: "call", E: &RE{Op: "call", Kind: "func", Sym: "obsC", Args: []*RE{bad}}})
+		case 1:
+			pool = append(pool, &RS{Op: "call", E: &RE{Op: "call", Kind: "method", Sym: "S.Note", Args: []*RE{bad}}})
+		default:
+			pool = append(pool, &RS{Op: "call", E: &RE{Op: "call", Kind: "three", Sym: "S.Sub.Mark", Args: []*RE{bad}}})
+		}
+	} else if r.chance(1, 6) || (g.illP > 50 && r.chance(1, 2)) {
+		// (at most one failing child per block: which error of several is reported depends on the schedule)
 		switch r.intn(5) {
 		case 4:
 			pool = append(pool, &RS{Op: "call", E: &RE{Op: "call", Kind: "method", Sym: "S.Blow", Args: []*RE{lit("int64", "1")}}})
